@@ -16,8 +16,10 @@ CLAUSES = {
             "Name2": "NamesEqualComposition", "Dest": "FiltersSeeFullyModifiedRead"},
     "C11": {"Dest": "FirstApplicableFilterWins", "Fate": "FirstApplicableFilterWins", "Occurrences": "OneDestinationPerRead"},
     "C05": {"PairSync": "SameCountSameOrderRecordKFromSamePair", "Dest": "PairDecision", "Seq1": "PairAdaptersBothOrNeither",
-            "Seq2": "PairAdaptersBothOrNeither", "Occurrences": "PairKeptOrRedirectedAsUnit"},
-    "C15": {"DemuxFile": "FileOfLastMatchName", "Dest": "UnknownOrUntrimmedOrNowhere", "Occurrences": "MultisetEqualsUndemultiplexedRun"},
+            "Seq2": "PairAdaptersBothOrNeither", "Occurrences": "PairKeptOrRedirectedAsUnit",
+            "DemuxFile": "PairAdaptersSameRank", "Name1": "PairAdaptersSameRank", "Name2": "PairAdaptersSameRank",
+            "Report.WithAdapters": "PairAdaptersBothOrNeither"},
+    "C15": {"DemuxFile": "FileOfLastMatchName", "Dest": "UnknownOrUntrimmedOrNowhere", "PairSync": "UnknownOrUntrimmedOrNowhere", "Occurrences": "MultisetEqualsUndemultiplexedRun"},
     "C16": {"Seq1": "KeepsStrictlyBetterOrientation", "Seq2": "KeepsStrictlyBetterOrientation", "Name1": "NameMarked",
             "Name2": "NameMarked", "Report.ReverseComplemented": "CountedAsReverseComplemented", "Info.RcColumn": "NameMarked",
             "Dest": "LaterStagesUseChosenOrientation"},
@@ -29,7 +31,7 @@ CLAUSES = {
     "C04": {"Occurrences": "EachReadExactlyOneFate", "Fate": "EachReadExactlyOneFate"},
 }
 for _c in ("InputCount", "Conservation", "WrittenCount", "WrittenMatchesFiles", "WrittenBasePairs", "InputBasePairs",
-           "WithAdapters", "QualityTrimmed", "ReverseComplemented", "TextFateEqualsJson", "MinimalEqualsJson"):
+           "WithAdapters", "QualityTrimmed", "PolyATrimmed", "ReverseComplemented", "TextFateEqualsJson", "MinimalEqualsJson"):
     CLAUSES["C04"]["Report." + _c] = "Report" + _c
 
 
